@@ -7,6 +7,7 @@ import (
 	"encoding/json"
 	"errors"
 	"fmt"
+	"sort"
 	"strings"
 	"sync"
 	"sync/atomic"
@@ -62,6 +63,13 @@ type Rig struct {
 	// pass through the gate (schedule-driven mode only).
 	GateReAdds   bool
 	clientAdding int32
+	afterLen     int32
+
+	// Unserialised: Add goes to the real queue WITHOUT the trace mutex and without an event (stress mode: truly
+	// parallel submissions; only the final accounting is checked).
+	Unserialised bool
+	AnchorCount  map[int]int // how many anchored batches included each operation
+	Oversize     int         // anchored batches larger than MaxCount
 
 	Versions  []uint64
 	PC        *wire.Client
@@ -90,14 +98,26 @@ func (noMetrics) CASWriteSize(string, int) {}
 
 // NewRig builds the rig with the given protocol versions (genesis times) and maximum batch size.
 func NewRig(versions []uint64, maxCount uint) *Rig {
+	return NewRigMax(versions, maxCount, maxCount)
+}
+
+// NewRigMax: the first protocol version has maximum operation count maxFirst, every later version maxLater.
+func NewRigMax(versions []uint64, maxFirst, maxLater uint) *Rig {
+	maxCount := maxFirst
+	if maxLater > maxCount {
+		maxCount = maxLater
+	}
 	r := &Rig{byReq: map[string]*OpMeta{}, Queue: &opqueue.MemQueue{}, CAS: map[string][]byte{}, parts: map[string]*partition{},
-		Versions: versions, MaxCount: maxCount, anchored: map[int]bool{}, discarded: map[int]bool{}, accepted: map[int]bool{}}
+		Versions: versions, MaxCount: maxCount, anchored: map[int]bool{}, discarded: map[int]bool{}, accepted: map[int]bool{}, AnchorCount: map[int]int{}}
 	cp := compression.New(compression.WithDefaultAlgorithms())
 	pc := &wire.Client{}
-	for _, g := range versions {
+	for i, g := range versions {
 		p := wire.Params(concr.SHA256)
 		p.GenesisTime = g
-		p.MaxOperationCount = maxCount
+		p.MaxOperationCount = maxFirst
+		if i > 0 {
+			p.MaxOperationCount = maxLater
+		}
 		parser := operationparser.New(p, operationparser.WithAnchorTimeValidator(expiryValidator{}))
 		v := &wire.Version{P: p, Parser: parser, Name: "1.0"}
 		v.Handler = &handlerWrap{rig: r, inner: txnprovider.NewOperationHandler(p, &casGate{r}, cp, parser, noMetrics{})}
@@ -163,6 +183,17 @@ func (qw *queueWrap) Add(op *operation.QueuedOperation, ver uint64) (uint, error
 	if r.GateReAdds && atomic.LoadInt32(&r.clientAdding) == 0 {
 		r.gate("ReAdd")
 	}
+	if r.Unserialised {
+		n, err := r.Queue.Add(op, ver)
+		if err == nil {
+			r.mu.Lock()
+			if m := r.byReq[string(op.OperationRequest)]; m != nil {
+				r.accepted[m.ID] = true
+			}
+			r.mu.Unlock()
+		}
+		return n, err
+	}
 	r.mu.Lock()
 	defer r.mu.Unlock()
 	n, err := r.Queue.Add(op, ver)
@@ -181,11 +212,21 @@ func (qw *queueWrap) Add(op *operation.QueuedOperation, ver uint64) (uint, error
 func (qw *queueWrap) Len() uint {
 	r := (*Rig)(qw)
 	r.gate("Len")
-	return r.Queue.Len()
+	n := r.Queue.Len()
+	if n > 0 {
+		atomic.StoreInt32(&r.afterLen, 1)
+	}
+	return n
 }
 
 func (qw *queueWrap) Peek(n uint) (operation.QueuedOperationsAtTime, error) {
 	r := (*Rig)(qw)
+	// the cutter reads the protocol version of the head operation right after the length (Peek(1)): that probe belongs
+	// to the model's "length read" step - the head of the queue cannot change between the two calls
+	if n == 1 && atomic.CompareAndSwapInt32(&r.afterLen, 1, 0) {
+		return r.Queue.Peek(n)
+	}
+	atomic.StoreInt32(&r.afterLen, 0)
 	r.gate("Peek")
 	return r.Queue.Peek(n)
 }
@@ -292,6 +333,10 @@ func (a *anchorGate) WriteAnchor(anchor string, _ []*protocol.AnchorDocument, re
 	r.log(Event{"ev": "Anchor", "inc": p.inc, "exp": p.exp, "def": p.def, "ver": ver, "count": cnt, "refs": len(refs)})
 	for _, id := range p.inc {
 		r.anchored[id] = true
+		r.AnchorCount[id]++
+	}
+	if uint(len(p.inc)+len(p.exp)+len(p.def)) > r.MaxCount {
+		r.Oversize++
 	}
 	for _, id := range p.exp {
 		r.discarded[id] = true
@@ -349,4 +394,33 @@ func (r *Rig) Snapshot() []Event {
 	r.mu.Lock()
 	defer r.mu.Unlock()
 	return append([]Event{}, r.Events...)
+}
+
+// StressResult is the final accounting of a stress run.
+type StressResult struct {
+	Submitted  int   `json:"submitted"`
+	Accepted   int   `json:"accepted"`
+	AtRest     bool  `json:"at_rest"`
+	Lost       []int `json:"lost"`       // accepted, never anchored
+	Duplicated []int `json:"duplicated"` // anchored more than once
+	Oversize   int   `json:"oversize_batches"`
+	Batches    int   `json:"batches"`
+}
+
+// Accounting returns the final accounting (call after the writer stopped).
+func (r *Rig) Accounting(submitted int, atRest bool) StressResult {
+	r.mu.Lock()
+	defer r.mu.Unlock()
+	res := StressResult{Submitted: submitted, Accepted: len(r.accepted), AtRest: atRest, Oversize: r.Oversize, Batches: len(r.Ledger), Lost: []int{}, Duplicated: []int{}}
+	for id := range r.accepted {
+		switch n := r.AnchorCount[id]; {
+		case n == 0 && !r.discarded[id]:
+			res.Lost = append(res.Lost, id)
+		case n > 1:
+			res.Duplicated = append(res.Duplicated, id)
+		}
+	}
+	sort.Ints(res.Lost)
+	sort.Ints(res.Duplicated)
+	return res
 }
